@@ -474,6 +474,40 @@ theorem Handler_fn_preapprove_invoice_malformed (w0 : WireString → List Nat) (
   · rw [h1]; simp only [Rs.okOr, Rs.pure_eq, Rs.bind_ok, h2]; rfl
 end More
 
+/-! ### chain-tracker arms of the RootHandler (C13) -/
+section Tracker
+variable {Node Approve LargeOctets ChainTracker TxoProof Headers BlockHash Octets : Type}
+
+/-- `RemoveBlock`: without a proof nothing is removed and nothing is persisted (`invalid_argument`); with a proof the block
+    is removed from the node's tracker and **then** the tracker that `remove_block` returned is persisted; a failing
+    `remove_block` (a panic: `expect`) persists nothing -/
+theorem Handler_fn_remove_block (gt : Node → ChainTracker) (ab : ChainTracker → ChainTracker) (pr : LargeOctets → Rs.M TxoProof)
+    (hd : RemoveBlock LargeOctets → Headers) (rb : ChainTracker → TxoProof → Headers → Rs.M ChainTracker)
+    (ps : Node → ChainTracker → Rs.M Unit) (self : RootHandler Node Approve) (m : RemoveBlock LargeOctets) :
+    RootHandler.do_handle__RemoveBlock gt ab pr hd rb ps self m
+      = match m.unspent_proof with
+        | none => .error (.err "Status::invalid_argument")
+        | some prf => pr prf >>= fun p => rb (gt self.node) p (hd m) >>= fun t => ps self.node t >>= fun _ => .ok ⟨⟩ := by
+  unfold RootHandler.do_handle__RemoveBlock
+  cases m.unspent_proof <;> rfl
+
+theorem Handler_fn_remove_block_not_persisted (gt : Node → ChainTracker) (ab : ChainTracker → ChainTracker)
+    (pr : LargeOctets → Rs.M TxoProof) (hd : RemoveBlock LargeOctets → Headers)
+    (rb : ChainTracker → TxoProof → Headers → Rs.M ChainTracker) (ps ps' : Node → ChainTracker → Rs.M Unit)
+    (self : RootHandler Node Approve) (m : RemoveBlock LargeOctets)
+    (h : m.unspent_proof = none ∨ ∃ prf p e, m.unspent_proof = some prf ∧ pr prf = .ok p ∧ rb (gt self.node) p (hd m) = .error e) :
+    RootHandler.do_handle__RemoveBlock gt ab pr hd rb ps self m = RootHandler.do_handle__RemoveBlock gt ab pr hd rb ps' self m := by
+  rw [Handler_fn_remove_block, Handler_fn_remove_block]
+  rcases h with h | ⟨prf, p, e, h1, h2, h3⟩
+  · rw [h]
+  · rw [h1]; simp only [h2, h3, Rs.bind_ok, Rs.bind_err]
+
+/-- `BlockChunk`: the chunk goes to the node's tracker with the message's hash, offset and content; nothing is persisted -/
+theorem Handler_fn_block_chunk (gt : Node → ChainTracker) (o0 : Octets → List Nat)
+    (bc : ChainTracker → BlockHash → Nat → List Nat → Rs.M ChainTracker) (self : RootHandler Node Approve) (m : BlockChunk BlockHash Octets) :
+    RootHandler.do_handle__BlockChunk gt o0 bc self m = bc (gt self.node) m.hash m.offset (o0 m.content) >>= fun _ => .ok ⟨⟩ := rfl
+end Tracker
+
 /-! ### non-vacuity: a concrete core in which the arms run -/
 
 /-- a toy channel: the next holder commitment number; `revoke n` succeeds iff `n` is that number -/
